@@ -402,6 +402,17 @@ class NT:
             elif k == "replace":
                 self.replace(i, e)
             elif k == "swap":
+                # mem::swap(&mut node.key, &mut local) is mem::replace(&mut node.key, local) with the old key left in the local: a node
+                # being recycled. The value slot of a node whose key was just recycled on this path is treated the same way.
+                recycled = False
+                for loc, other, vown, vother in ((e["a"], e["b"], e["va"], e["vb"]), (e["b"], e["a"], e["vb"], e["va"])):
+                    if loc[0] == "H" and loc[2] in (("key",), ("val",)) and not (other[0] == "H" and other[2] in (("key",), ("val",))):
+                        rk = any(x[1] == "recycle-key" and x[3] == loc[1] for x in self.events_on)
+                        if loc[2] == ("key",) or rk:
+                            self.replace(i, dict(e, ev="replace", loc=loc, old=vown, new=vother))
+                            recycled = True
+                if recycled:
+                    continue
                 for loc, other in ((e["a"], e["b"]), (e["b"], e["a"])):
                     if loc[0] == "H" and loc[2] == ("val",):
                         self.events_on.append((i, "swap", None, loc[1], other))
@@ -664,6 +675,12 @@ class NT:
                 st.own = "freed"
                 st.hist.append("dealloc")
             return
+        # a payload moved out of a node by mem::replace / mem::swap and then dropped (alone or inside a PutResult / tuple) is consumed
+        if self.detached and isinstance(v, tuple) and not e.get("moved"):
+            inner = set(subterms(v))
+            for dv in self.detached:
+                if dv in inner and not self.detached[dv]:
+                    self.detached[dv] = True
         # drops of K / V / (K,V) / PutResult values run user Drop code
         if any(t in ty for t in ("K", "V")) and not ty.startswith("&"):
             self.snapshot(i, e, "user-drop")
@@ -698,6 +715,7 @@ class NT:
                         continue  # read out with ptr::read before the node was freed: the copy is the owner
                     if getattr(st, f) == "init":
                         self.find("C04.R2", endev, "%s of freed node %s is never moved out or dropped (leak of the %s)" % (f, fmt_val(n), f), n)
+        returned = set(subterms(self.path.ret)) if isinstance(self.path.ret, tuple) else set()
         for v, used in self.detached.items():
-            if not used:
+            if not used and v not in returned:      # handed to the caller inside the return value = consumed
                 self.find("C04.R2", endev, "payload moved out of a recycled node by mem::replace is never consumed (leak)")
